@@ -29,7 +29,7 @@ ASSUMPTIONS = ['model written from XML Schema Part 2 2nd edition; where 1st ed./
                'known findings are excluded by construction (excluded_known) and kept as witnesses under regress-known/C09']
 BUDGET = {'quick': 520, 'thorough': 5000}
 if os.environ.get('C09_DEV_BUDGET'): BUDGET = {'quick': int(os.environ['C09_DEV_BUDGET']), 'thorough': int(os.environ['C09_DEV_BUDGET'])}    # sensitivity runs on a loaded machine only
-WALLCAP = {'quick': 900, 'thorough': 3600}
+WALLCAP = {'quick': 600, 'thorough': 3600}
 
 CORE_TYPES = ['decimal'] + list(D.INT_RANGES) + ['boolean', 'float', 'double', 'dateTime', 'date', 'time', 'hexBinary', 'base64Binary', 'string', 'normalizedString', 'token']
 EXT_TYPES = ['gYearMonth', 'gYear', 'gMonthDay', 'gDay', 'gMonth', 'duration', 'language', 'NMTOKEN', 'Name', 'NCName']
@@ -43,11 +43,8 @@ ORDERED = set(['decimal', 'float', 'double', 'duration']) | set(D.RE_DT) | set(D
 def known_class(tn, proc, lane='builtin'):
     """finding id if (type, whitespace-processed literal) belongs to the input class of a known finding"""
     root = tn
-    if lane == 'builtin' and root in ('dateTime', 'date') and re.match(r'-[0-9]{4,}-', proc): return 'C09-negative-year-canonical'
     if lane == 'builtin' and root in ('float', 'double') and proc in ('INF', '-INF', 'NaN'): return 'C09-xsvalue-special-literals' 
-    if D.PRIM.get(root) == 'decimal' and re.match(r'[+-]?\.\Z', proc): return 'C09-decimal-lone-point'
-    if root in ('float', 'double') and re.match(r'[+-]?\.(?:[eE][+-]?[0-9]+)?\Z', proc): return 'C09-decimal-lone-point'
-    if D.PRIM.get(root) == 'decimal' and root != 'decimal' and re.match(r'[+-]?[0-9]*\.[0-9]*\Z', proc) and not D.RE_DECIMAL.match(proc) : return 'C09-decimal-lone-point'
+    if root in ('float', 'double') and re.match(r'[+-]?\.(?:[eE][+-]?[0-9]+)?\Z', proc): return 'C09-float-no-digit-mantissa'
     if lane == 'builtin' and root == 'dateTime' and re.search(r'T24:00:00(\.0+)?(Z|[+-][0-9:]*)?\Z', proc): return 'C09-datetime-hour24-canonical'
     return None
 
